@@ -17,7 +17,8 @@ Only property theorems and non-vacuity examples live here.
 
 Partial (named here and in the evidence): the OS scheduler and the memory ordering of
 `JoinHandle::is_finished` are not modelled — completions enter the model as `finish` events;
-payload numbers above `hugeLimit` end the model with `Out.huge` (finding `alloc`). -/
+payload numbers above `MAX_SIXEL_SIZE` / `MAX_SIXEL_COLORS` are parse errors since the size-limit repairs (former finding
+`alloc`); the model outcome `Out.huge` is unreachable (`IcyVerif.C03.sixel_never_huge`). -/
 namespace IcyVerif.C14
 open IcyVerif
 
@@ -137,8 +138,9 @@ example : parse "#1;2;100;0;0!3~-!2?".toList = .ok ⟨3, 12, 144⟩ := by decide
 example : run {} "\"1;1;3;2".toList = .ok { state := .readSize, nums := [1, 1, 3, 2] } := by decide
 example : parse "\"1;1;3;2~~~~~-~-~".toList = .ok ⟨5, 2, 40⟩ := by decide
 example : parse " ".toList = .err .invalidSixelChar := by decide
-/-- numbers beyond the modelled range -/
-example : parse "\"1;1;2147483599~".toList = .huge := by decide
+/-- numbers beyond `MAX_SIXEL_SIZE` are parse errors (formerly an allocation of that size: finding `alloc`, repaired) -/
+example : parse "\"1;1;2147483599~".toList = .err .invalidPictureSize := by decide
+example : parse "\"1;1;4096;2~".toList = .ok ⟨4096, 2, 32768⟩ := by decide
 
 end Rect
 
